@@ -18,7 +18,6 @@ package ast
 //@ specmethod (e EmptyNode) NodeOK() (r bool) = true
 //@ specmethod (e EmptyNode) ListSpare() (r int) = 0
 //@ specmethod (e EmptyNode) ListArr() (r int) = 0
-//@ specmethod (e EmptyNode) EndsWithin(lo parsley.Pos, hi parsley.Pos) (r bool) = lo <= parsley.Pos(e) && parsley.Pos(e) <= hi
 
 //@ method (t *TerminalNode) Token() (r string) = t.token
 //@ method (t *TerminalNode) Schema() (r interface{}) = t.schema
@@ -28,7 +27,6 @@ package ast
 //@ specmethod (t *TerminalNode) NodeOK() (r bool) = t != nil
 //@ specmethod (t *TerminalNode) ListSpare() (r int) = 0
 //@ specmethod (t *TerminalNode) ListArr() (r int) = 0
-//@ specmethod (t *TerminalNode) EndsWithin(lo parsley.Pos, hi parsley.Pos) (r bool) = lo <= t.readerPos && t.readerPos <= hi
 
 //@ func NewTerminalNode(schema interface{}, token string, value interface{}, pos parsley.Pos, readerPos parsley.Pos) (t *TerminalNode)
 //@   ensures fresh(t) && t.schema == schema && t.token == token && t.value == value && t.pos == pos && t.readerPos == readerPos
@@ -43,7 +41,6 @@ package ast
 //@ specmethod (n *NonTerminalNode) NodeOK() (r bool) = n != nil
 //@ specmethod (n *NonTerminalNode) ListSpare() (r int) = 0
 //@ specmethod (n *NonTerminalNode) ListArr() (r int) = 0
-//@ specmethod (n *NonTerminalNode) EndsWithin(lo parsley.Pos, hi parsley.Pos) (r bool) = lo <= n.readerPos && n.readerPos <= hi
 
 //@ -- ---------------------------------------------------------------- node lists
 //@ -- a list of alternatives is non-empty, flat, holds well-formed nodes and starts at the beginning of its array
@@ -52,7 +49,8 @@ package ast
 //@ specmethod (nl NodeList) NodeOK() (r bool) = wfList(nl)
 //@ specmethod (nl NodeList) ListSpare() (r int) = cap(nl) - len(nl)
 //@ specmethod (nl NodeList) ListArr() (r int) = array(nl)
-//@ specmethod (nl NodeList) EndsWithin(lo parsley.Pos, hi parsley.Pos) (r bool) = forall k int :: 0 <= k && k < len(nl) ==> parsley.EndsWithin(nl[k], lo, hi)
+//@ specmethod (nl NodeList) NAlts() (r int) = len(nl)
+//@ specmethod (nl NodeList) Alt(k int) (r parsley.Node) = nl[k]
 
 //@ method (nl NodeList) Token() (r string) = nl[0].Token()
 //@   requires wfList(nl)
